@@ -30,11 +30,14 @@ Inductive layer :=
 | LTls                   (* *tls.Conn (l4tls handler, cx.Wrap(tls.Server(cx))): CloseWrite = close_notify *)
 | LL4Conn                (* *layer4.Connection: embeds the net.Conn interface *)
 | LThrottle              (* l4throttle.throttledConn{Conn: cx.Conn} *)
-| LProxyProtocol         (* *proxyprotocol.Conn (third party; l4proxyprotocol does cx.Wrap(NewConn(cx))) *)
-| LTeeNext.              (* l4tee.nextConn{Conn: cx} *)
+| LProxyProtocol         (* what l4proxyprotocol passes to cx.Wrap: the third-party *proxyprotocol.Conn, wrapped
+                            in a local type that forwards CloseWrite to the *layer4.Connection below (gen/Shape.v) *)
+| LTeeNext               (* l4tee.nextConn{Conn: cx} *)
+| LHiding.               (* any wrapper that embeds net.Conn and declares no CloseWrite, e.g. a bare third-party
+                            *proxyprotocol.Conn handed on as it is *)
 
 Definition is_wrapper (l : layer) : bool :=
-  match l with LL4Conn | LThrottle | LProxyProtocol | LTeeNext => true | _ => false end.
+  match l with LL4Conn | LThrottle | LProxyProtocol | LTeeNext | LHiding => true | _ => false end.
 
 (* is CloseWrite in the method set of the Go value (what `v.(closeWriter)` tests): an embedded
    interface value of type net.Conn promotes only net.Conn's methods *)
@@ -46,6 +49,7 @@ Definition has_cw_method (l : layer) : bool :=
   | LThrottle => l4throttle_throttledConn_has_CloseWrite
   | LTeeNext => l4tee_nextConn_has_CloseWrite
   | LProxyProtocol => l4proxyprotocol_conn_has_CloseWrite
+  | LHiding => false
   end.
 
 (* a chain lists the layers of down.Conn from the outermost value to the transport *)
@@ -73,6 +77,7 @@ Definition chain_proxy_protocol : chain := [LProxyProtocol; LL4Conn; LTcp].
 Definition chain_tee : chain := [LTeeNext; LL4Conn; LTcp].
 Definition chain_tls : chain := [LTls; LL4Conn; LTcp].
 Definition chain_udp : chain := [LUdp].
+Definition chain_hiding : chain := [LHiding; LL4Conn; LTcp].
 
 (* ------------------------------------------------------------------------------------------ *)
 (* the relay                                                                                   *)
